@@ -74,10 +74,11 @@ def build_lean(targets):
 
 
 def prop_modules(pid):
-    """the property modules of `pid`: BS/Props/<pid>.lean and, when present, the extension file <pid>b.lean"""
+    """the property modules of `pid`: BS/Props/<pid>.lean and, when present, the extension files <pid>b.lean, <pid>c.lean …"""
     mods = [pid]
-    if os.path.exists(os.path.join(LEAN, "BS", "Props", pid + "b.lean")):
-        mods.append(pid + "b")
+    for suffix in "bcdefg":
+        if os.path.exists(os.path.join(LEAN, "BS", "Props", pid + suffix + ".lean")):
+            mods.append(pid + suffix)
     return mods
 
 
